@@ -16,7 +16,32 @@
  * @instance decompress -DH_DECOMPRESS
  */
 #include "v.h"
+/* system headers first (their include guards make fileio.c's own includes no-ops), then the libc entry points
+ * that touch the file system are renamed INSIDE this translation unit only: the real libc stays intact for
+ * the replay runtime and the sanitizers */
 #include <stdio.h>
+#include <stdlib.h>
+#include <string.h>
+#include <signal.h>
+#include <errno.h>
+#include <fcntl.h>
+#include <unistd.h>
+#include <sys/types.h>
+#include <sys/stat.h>
+#include <time.h>
+#include <limits.h>
+#include <assert.h>
+#define fopen    v_fopen
+#define fclose   v_fclose
+#define open     v_open
+#define fdopen   v_fdopen
+#define fileno   v_fileno
+#define setvbuf  v_setvbuf
+#define remove   v_remove
+#define signal   v_signal
+FILE* v_fopen(const char* p, const char* m); int v_fclose(FILE* f); int v_open(const char* p, int fl, ...); FILE* v_fdopen(int fd, const char* m);
+int v_fileno(FILE* f); int v_setvbuf(FILE* f, char* b, int m, size_t n); int v_remove(const char* p);
+typedef void (*v_sigh_t)(int); v_sigh_t v_signal(int s, v_sigh_t h);
 struct FIO_ctx_s; struct FIO_prefs_s;
 #include "fio_patched.c"
 
@@ -57,8 +82,7 @@ int remove(const char* p)
 {   if (nondet_bool()) { g_removeFailed = 1; return -1; }
     { int const i = idx(p); fs[i].exists = 0; fs[i].tag = T_NONE; if (i == 0 && g_handlerSet) g_srcRemovedWhileHandler = 1; crashpoint(); }
     return 0; }
-typedef void (*sigh_t)(int);
-sigh_t signal(int s, sigh_t h) { (void)s; g_handlerSet = (h != (sigh_t)0 && h != (sigh_t)1 /* SIG_IGN */ && h != SIG_DFL); return h; }
+v_sigh_t signal(int s, v_sigh_t h) { (void)s; g_handlerSet = (h != (v_sigh_t)0 && h != (v_sigh_t)1 /* SIG_IGN */ && h != SIG_DFL); return h; }
 /* AIO pools: bookkeeping only */
 struct WritePoolCtx_s { int dummy; }; struct ReadPoolCtx_s { int dummy; };
 static FILE* wfile; static FILE* rfile;
@@ -76,9 +100,9 @@ int AIO_ReadPool_closeFile(ReadPoolCtx_t* c) { (void)c; rfile = NULL; fs[0].open
 
 /* the codec loops: contract stubs */
 static int codec_verdict(void) { int const r = nondet_bool(); VCHECKM(fs[1].exists && fs[1].open > 0, "the codec runs only with an open destination"); if (r == 0) fs[1].tag = T_COMPLETE; return r; }
-static int FIO_compressFilename_internal(FIO_ctx_t* const fCtx, FIO_prefs_t* const prefs, cRess_t ress, const char* dstFileName, const char* srcFileName, int compressionLevel)
+int FIO_compressFilename_internal(FIO_ctx_t* const fCtx, FIO_prefs_t* const prefs, cRess_t ress, const char* dstFileName, const char* srcFileName, int compressionLevel)
 { (void)fCtx; (void)prefs; (void)ress; (void)dstFileName; (void)srcFileName; (void)compressionLevel; return codec_verdict(); }
-static int FIO_decompressFrames(FIO_ctx_t* const fCtx, dRess_t ress, const FIO_prefs_t* const prefs, const char* dstFileName, const char* srcFileName)
+int FIO_decompressFrames(FIO_ctx_t* const fCtx, dRess_t ress, const FIO_prefs_t* const prefs, const char* dstFileName, const char* srcFileName)
 { (void)fCtx; (void)ress; (void)prefs; (void)dstFileName; (void)srcFileName; return codec_verdict(); }
 
 void harness(void)
